@@ -571,7 +571,15 @@ class URL:
         """
         return QueryParamDict.from_text(self._query or '')
 
-    qp = query_params
+    @property
+    def qp(self):
+        """Handy alias of :attr:`~URL.query_params`: the same object, not a
+        second parse of the original query text."""
+        return self.query_params
+
+    @qp.setter
+    def qp(self, value):
+        self.query_params = value
 
     @property
     def path(self):
